@@ -21,6 +21,7 @@ MCNext ==
      \/ \E k \in RSizes : Read(k)  /\ hist' = Append(hist, Obs("Read", k))
      \/ Sum   /\ hist' = Append(hist, Obs("Sum", 0))
      \/ Reset /\ hist' = Append(hist, Obs("Reset", 0))
+     \/ Clobber /\ hist' = Append(hist, Obs("Clobber", 0))
 MCSpec == MCInit /\ [][MCNext]_<< vars, hist >>
 
 (* exhaustive configuration: the history is not part of the state *)
